@@ -192,7 +192,7 @@ fn attr_choice(c: u64, pos: usize) -> (String, Val) {
 pub fn run_c16(ctx: &Ctx, rep: &mut Report) {
     // (a) every value string <= 4 (5) symbols x method x position x newline
     {
-        let maxlen = if ctx.thorough() { 6 } else { 4 };
+        let maxlen = if ctx.thorough() { 6 } else { 5 };
         let strings = mccore::strings_upto_count(13, maxlen);
         let radices = [strings, 2, 5, 2];
         let n = product(&radices);
@@ -470,7 +470,7 @@ fn unquote_agree(val: &Unquote<'_>) -> Result<(), (String, String)> {
 pub fn run_c17(ctx: &Ctx, rep: &mut Report) {
     // every string over the property's alphabet
     {
-        let maxlen = if ctx.thorough() { 8 } else { 6 };
+        let maxlen = if ctx.thorough() { 8 } else { 7 };
         let n = mccore::strings_upto_count(10, maxlen);
         ctx.family(
             rep,
@@ -498,7 +498,7 @@ pub fn run_c17(ctx: &Ctx, rep: &mut Report) {
     // white space or structure (C3 A0, C3 85, C2 A0, C2 85, F0 9F 98 A0), tab, and the structural characters
     {
         let syms: [&str; 13] = ["<", ">", ";", ",", "\"", "\\", "=", " ", "a", "à", "\u{a0}", "\u{1F620}", "Å"];
-        let maxlen = if ctx.thorough() { 7 } else { 5 };
+        let maxlen = if ctx.thorough() { 7 } else { 6 };
         let n = mccore::strings_upto_count(13, maxlen);
         ctx.family(
             rep,
@@ -697,7 +697,7 @@ fn c18_docs(thorough: bool) -> Vec<Doc> {
 }
 
 pub fn run_c18(ctx: &Ctx, rep: &mut Report) {
-    let docs = c18_docs(ctx.thorough());
+    let docs = c18_docs(true);
     // fault-free runs: number of sink calls per (doc, newline)
     let mut calls: Vec<usize> = Vec::new();
     for d in &docs {
@@ -708,7 +708,7 @@ pub fn run_c18(ctx: &Ctx, rep: &mut Report) {
         }
     }
     // index space: for (doc, nl) with c calls: 1 fault-free + c once + c persistent (+ pairs in thorough)
-    let pairs = ctx.thorough();
+    let pairs = true;
     let mut offsets = vec![0u64];
     for c in &calls {
         let c = *c as u64;
